@@ -567,6 +567,10 @@ def run(ctx, env):
     n7 += lookup_table_rule(ctx, an, prog, "R4.7", "variable_versions::v9_lookup::ScopeFieldType", "<variable_versions::v9_lookup::ScopeFieldType as std::convert::From<u16>>::from", {"Unknown"})
     datatype_scrutinee_rule(ctx, an, prog, "R4.7", "<variable_versions::data_number::FieldDataType as std::convert::From<variable_versions::v9_lookup::V9Field>>::from", "variable_versions::v9_lookup::V9Field")
     ctx.floor("R4.7", "v9", "lookup arms", n7, 100)
+    # R4.11
+    ctx.rule("R4.11", "a field value is reported as sent: in every arm of FieldValue::from_field_type (private helpers inlined) no arithmetic, clamping or narrowing cast is applied to a value read from the input bytes, and each time kind gets its unit from the Duration constructor of that unit")
+    from . import valuepath
+    valuepath.rule(ctx, prog, an, "R4.11")
     # R4.9
     records.record_repetition_rule(ctx, prog, an, "R4.9", V9 + "Data::parse_be", R)
     decoder_iterates_records(ctx, prog, an, "R4.9", only="::v9::OptionsData")
